@@ -471,11 +471,13 @@ class FileLoadImplWorld(ImplWorld):
     one clock tick)"""
     MTIME_NS = 1700000000 * 10 ** 9
 
+    shared_path = False      # True: every engine of the history loads from the SAME path (one rule file, several engines)
+
     def _load(self, e, code, overwrite):
         import os, tempfile
         if not hasattr(self, '_dir'):
             self._dir = tempfile.mkdtemp(prefix='verif-loadfile-')
-        path = os.path.join(self._dir, 'rules_%s.py' % e)
+        path = os.path.join(self._dir, 'rules_%s.py' % ('shared' if self.shared_path else e))
         with open(path, 'w', encoding='utf8') as f:
             f.write(code)
         os.utime(path, ns=(self.MTIME_NS, self.MTIME_NS))
@@ -485,6 +487,10 @@ class FileLoadImplWorld(ImplWorld):
         import shutil
         if hasattr(self, '_dir'):
             shutil.rmtree(self._dir, ignore_errors=True)
+
+
+class SharedFileLoadImplWorld(FileLoadImplWorld):
+    shared_path = True
 
 
 BUILTIN_KEYS = {('=', 2), ('\\=', 2), ('findall', 3), ('once', 1), ('assertz', 1), ('asserta', 1), ('retract', 1), ('retractall', 1)}
